@@ -16,6 +16,9 @@
 //!   unchunk <md>            decode_arbitrary_bytes_from_metadatum
 //!   sfd <type> <json>       serde Deserialize of a hand-written string form, then Serialize of the result
 //!   sfs <type> <value>      Serialize, then Deserialize            (type: bignum int bigint hash28 hash32 assetname)
+//!   tj <Type> <cbor hex> <json>  annotated typed value: x = from_bytes; `ok <tokens of x.to_json()> ; ok <hex of T::from_json(<json>).to_bytes()> eq=(== x)`;
+//!                           <json> is the JSON the MODEL writes for x; bech32 strings travel as placeholders \x01<id><hex> (1 address,
+//!                           3 ed25519 public key)
 //!   ty <Type> <cbor hex>    typed value x = from_bytes: y = from_json(to_json(x)); `ok eq=(x==y) bytes=(same to_bytes) norm=(same CBOR up to
 //!                           map-entry order) fix=(y round-trips exactly) lang=(x holds a Plutus V2/V3 script) negint=(x holds a metadatum
 //!                           integer below -2^63) unsorted=(some insertion-ordered map of x that JSON writes sorted is not ascending)` | `err-tojson ..` | `err-fromjson ..` | `skip ..` (observation stream, no model)
@@ -554,6 +557,113 @@ fn exec_ty0(name: &str, bytes: Vec<u8>) -> String {
     )
 }
 
+// ---- `tj`: annotated typed values; externally produced strings (bech32) are exchanged as placeholders ----
+fn ph(id: u8, b: &[u8]) -> String { format!("\u{1}{}{}", (b'0' + id) as char, hex::encode(b)) }
+/// a string of the implementation's JSON -> placeholder when it is the bech32 text of an address / a public key
+fn to_placeholder(s: &str) -> Option<String> {
+    if s.starts_with("ed25519_pk1") { if let Ok(k) = PublicKey::from_bech32(s) { return Some(ph(3, &k.as_bytes())); } }
+    if s.starts_with("addr") || s.starts_with("stake") {
+        if let Ok(a) = Address::from_bech32(s) {
+            let b = a.to_bytes();
+            return Some(ph(1, &b));
+        }
+    }
+    None
+}
+fn from_placeholder(s: &str) -> Option<String> {
+    let b = s.as_bytes();
+    if b.len() >= 2 && b[0] == 1 {
+        let raw = hex::decode(&s[2..]).ok()?;
+        return match b[1] {
+            b'1' | b'2' => Address::from_bytes(raw).ok()?.to_bech32(None).ok(),
+            b'3' => Some(PublicKey::from_bytes(&raw).ok()?.to_bech32()),
+            _ => None,
+        };
+    }
+    None
+}
+/// implementation JSON -> exchange form: bech32 strings become placeholders, a string holding JSON text (embedded datum /
+/// metadatum) becomes the array ["\u{1}X", <parsed document>]
+fn jv_to_ph(v: &JV) -> JV {
+    match v {
+        JV::String(s) => {
+            if let Some(p) = to_placeholder(s) { return JV::String(p); }
+            if s.starts_with('{') { if let Ok(inner @ JV::Object(_)) = serde_json::from_str::<JV>(s) { return JV::Array(vec![JV::String("\u{1}X".to_string()), inner]); } }
+            v.clone()
+        }
+        JV::Array(l) => JV::Array(l.iter().map(jv_to_ph).collect()),
+        JV::Object(m) => { let mut o = serde_json::Map::new(); for (k, x) in m.iter() { o.insert(to_placeholder(k).unwrap_or_else(|| k.clone()), jv_to_ph(x)); } JV::Object(o) }
+        _ => v.clone(),
+    }
+}
+fn jv_from_ph(v: &JV) -> JV {
+    match v {
+        JV::String(s) => JV::String(from_placeholder(s).unwrap_or_else(|| s.clone())),
+        JV::Array(l) => {
+            if l.len() == 2 { if let JV::String(m) = &l[0] { if m == "\u{1}X" { return JV::String(serde_json::to_string(&l[1]).unwrap()); } } }
+            JV::Array(l.iter().map(jv_from_ph).collect())
+        }
+        JV::Object(m) => { let mut o = serde_json::Map::new(); for (k, x) in m.iter() { o.insert(from_placeholder(k).unwrap_or_else(|| k.clone()), jv_from_ph(x)); } JV::Object(o) }
+        _ => v.clone(),
+    }
+}
+fn j_to_jv(j: &J) -> JV { serde_json::from_str(&j_to_text(j)).expect("model json") }
+macro_rules! tj_arm {
+    ($t:ty, $bytes:expr, $mj:expr) => {{
+        match <$t>::from_bytes($bytes) {
+            Err(_) => "skip decode".to_string(),
+            Ok(x) => {
+                let first = match x.to_json() {
+                    Err(_) => "err".to_string(),
+                    Ok(s) => match serde_json::from_str::<JV>(&s) {
+                        Ok(v) => { let mut o = String::new(); jv_tokens(&jv_to_ph(&v), &mut o); format!("ok {}", o.trim_start()) }
+                        Err(_) => "harness-unparseable-json".to_string(),
+                    },
+                };
+                if first == "err" { return "err".to_string(); }
+                let text = serde_json::to_string(&jv_from_ph(&j_to_jv($mj))).unwrap();
+                let back = leg(|| match <$t>::from_json(&text) {
+                    Err(_) => "err".to_string(),
+                    Ok(y) => format!("ok {} eq={}", hex_or_dash(&y.to_bytes()), (y == x) as u8),
+                });
+                format!("{} ; {}", first, back)
+            }
+        }
+    }};
+}
+macro_rules! tj_dispatch {
+    ($name:expr, $bytes:expr, $mj:expr; $( $s:literal => $t:ty ),* $(,)?) => {
+        match $name { $( $s => tj_arm!($t, $bytes, $mj), )* _ => "skip unknown-type".to_string(), }
+    };
+}
+fn exec_tj(name: &str, bytes: Vec<u8>, mj: &J) -> String {
+    tj_dispatch!(name, bytes, mj;
+        "TransactionInput" => TransactionInput, "TransactionInputs" => TransactionInputs, "Credential" => Credential,
+        "Credentials" => Credentials, "Ed25519KeyHashes" => Ed25519KeyHashes, "DRep" => DRep, "Anchor" => Anchor,
+        "UnitInterval" => UnitInterval, "Relay" => Relay, "Relays" => Relays, "PoolMetadata" => PoolMetadata,
+        "ProtocolVersion" => ProtocolVersion, "ExUnits" => ExUnits, "ExUnitPrices" => ExUnitPrices, "Nonce" => Nonce,
+        "MoveInstantaneousReward" => MoveInstantaneousReward, "Certificate" => Certificate, "Certificates" => Certificates,
+        "Assets" => Assets, "MultiAsset" => MultiAsset, "Value" => Value, "Mint" => Mint,
+        "Withdrawals" => Withdrawals, "Voter" => Voter, "GovernanceActionId" => GovernanceActionId,
+        "VotingProcedure" => VotingProcedure, "VotingProcedures" => VotingProcedures, "Costmdls" => Costmdls,
+        "PoolVotingThresholds" => PoolVotingThresholds, "DRepVotingThresholds" => DRepVotingThresholds,
+        "ProtocolParamUpdate" => ProtocolParamUpdate,
+        "Constitution" => Constitution, "GovernanceAction" => GovernanceAction, "VotingProposal" => VotingProposal,
+        "VotingProposals" => VotingProposals, "ProposedProtocolParameterUpdates" => ProposedProtocolParameterUpdates,
+        "Update" => Update, "NativeScript" => NativeScript, "NativeScripts" => NativeScripts,
+        "PlutusScripts" => PlutusScripts, "Redeemers" => Redeemers,
+        "GeneralTransactionMetadata" => GeneralTransactionMetadata, "AuxiliaryData" => AuxiliaryData,
+        "ScriptRef" => ScriptRef,
+        "TransactionOutputLegacy" => TransactionOutput, "TransactionOutputLegacyDH" => TransactionOutput,
+        "TransactionOutputMap" => TransactionOutput, "TransactionOutput" => TransactionOutput,
+        "TransactionOutputs" => TransactionOutputs, "TransactionBody" => TransactionBody,
+        "Vkeywitness" => Vkeywitness, "Vkeywitnesses" => Vkeywitnesses, "BootstrapWitness" => BootstrapWitness,
+        "BootstrapWitnesses" => BootstrapWitnesses, "TransactionWitnessSet" => TransactionWitnessSet,
+        "Transaction" => Transaction, "VRFCert" => VRFCert, "OperationalCert" => OperationalCert,
+        "HeaderBody" => HeaderBody, "Header" => Header, "HeaderBodyPraos" => HeaderBody, "HeaderPraos" => Header, "Block" => Block, "Int" => Int,
+    )
+}
+
 fn exec(toks: &[String]) -> String {
     let mut t = Tk { t: toks, p: 0 };
     let kind = t.next();
@@ -567,6 +677,7 @@ fn exec(toks: &[String]) -> String {
         "sfd" => { let ty = t.next(); let j = j_parse(&mut t); exec_sfd(ty, &j) }
         "sfs" => { let ty = t.next(); let v = t.next(); exec_sfs(ty, v) }
         "ty" => { let name = t.next(); let b = t.hex(); exec_ty(name, b) }
+        "tj" => { let name = t.next(); let b = t.hex(); let j = j_parse(&mut t); exec_tj(name, b, &j) }
         _ => return "harness-badcase".to_string(),
     };
     if !t.done() { return "harness-trailing-tokens".to_string(); }
@@ -836,6 +947,7 @@ fn gen(dir: &str) {
         for line in txt.lines() {
             let toks: Vec<&str> = line.split_whitespace().collect();
             if toks.len() == 3 && toks[0] == "rt" { emit_line(&mut out, &format!("ty {} {}", toks[1], toks[2])); }
+            else if toks.len() > 3 && toks[0] == "tj" { emit_line(&mut out, line.trim()); }
         }
     }
     // JSON -> metadata -> JSON, three schemas
